@@ -311,7 +311,9 @@ def run(ctx):
                 "every recorded event is validated against ByteQueue; writer sequences run twice: with a fresh tight buffer per "
                 "WriteBinary/Write and with the arguments being consecutive sub-slices (len < cap) of one caller array "
                 "whose content incl. spare capacity is compared with what the caller wrote after every op (ab = 0). "
-                "evaluations = cases; distinct_nontrivial = cases "
+                "Writer sequences containing Conn.ReadFrom (readers of 0..8193 bytes: full / short / 1-byte reads, EOF with the "
+                "last bytes, (0,nil) reads) are enumerated up to length 3 (thorough 4); after every Flush/Write the caller "
+                "reuses (overwrites) its own flushed buffers. evaluations = cases; distinct_nontrivial = cases "
                 "in which an outstanding peeked slice was re-read after a later non-Peek operation or bytes reached "
                 "the peer (measured from the traces); peek_rechecks = Op events that re-examined >= 1 outstanding "
                 "slice. The short sequences are enumerated completely (exhaustive_part_cases, all distinct); the long "
